@@ -10,8 +10,10 @@ Local Open Scope Z_scope.
     concatenation of 2 KiB chunks (coqc's number-literal parser overflows its stack beyond ~10^4 digits) *)
 Record kcmd := { kc_rt : Z; kc_path : list byte; kc_vrl : Z; kc_off : Z; kc_idx : Z; kc_data : list byte;
                  kc_shapes : list (list byte * Z) }.
-Record kwt := { kw_rt : Z; kw_path : list byte; kw_datalen : Z; kw_vrl : Z; kw_buf : list byte;
-                kw_shapes : list (list byte * Z) }.
+(** observed WTSet i.  [kw_buf]/[kw_shapes] = None means: byte-identical to (offset ++ index ++ payload) /
+    to the data shapes of input command i (compared by the harness; printed once instead of twice) *)
+Record kwt := { kw_rt : Z; kw_path : list byte; kw_datalen : Z; kw_vrl : Z; kw_buf : option (list byte);
+                kw_shapes : option (list (list byte * Z)) }.
 
 Record case := {
   k_raw : bool;            (* true: k_ser is an arbitrary byte string handed to ParseTGData; k_cmds unused *)
@@ -27,8 +29,19 @@ Record case := {
 Definition mk_shape (p : list byte * Z) : shape := mkshape (fst p) (byte_of_Z (snd p)).
 Definition mk_cmd (k : kcmd) : cmd :=
   mkcmd (kc_rt k) (kc_path k) (kc_vrl k) (kc_off k) (kc_idx k) (kc_data k) (map mk_shape (kc_shapes k)).
-Definition mk_wt (k : kwt) : wtset :=
-  mkwt (kw_rt k) (kw_path k) (kw_datalen k) (kw_vrl k) (kw_buf k) (map mk_shape (kw_shapes k)).
+Definition mk_wt (c : option cmd) (k : kwt) : wtset :=
+  mkwt (kw_rt k) (kw_path k) (kw_datalen k) (kw_vrl k)
+       (match kw_buf k, c with Some b, _ => b | None, Some c => cmd_buffer c | None, None => [] end)
+       (match kw_shapes k, c with Some l, _ => map mk_shape l | None, Some c => c_shapes c | None, None => [] end).
+
+Fixpoint mk_wts (cs : list cmd) (ks : list kwt) : list wtset :=
+  match ks with
+  | [] => []
+  | k :: ks' => match cs with
+                | c :: cs' => mk_wt (Some c) k :: mk_wts cs' ks'
+                | [] => mk_wt None k :: mk_wts [] ks'
+                end
+  end.
 
 Definition shape_eqb (a b : shape) : bool := bytes_eqb (s_name a) (s_name b) && Byte.eqb (s_type a) (s_type b).
 Fixpoint list_eqb {A} (f : A -> A -> bool) (a b : list A) : bool :=
@@ -43,7 +56,7 @@ Definition wtset_eqb (a b : wtset) : bool :=
 
 Definition parse_agrees (k : case) (bs : list byte) : bool :=
   match ParseTGData bs (k_root k) with
-  | Ok (tgid, ws) => (k_code k =? 0)%nat && (tgid =? k_ptgid k) && list_eqb wtset_eqb ws (map mk_wt (k_wts k))
+  | Ok (tgid, ws) => (k_code k =? 0)%nat && (tgid =? k_ptgid k) && list_eqb wtset_eqb ws (mk_wts (map mk_cmd (k_cmds k)) (k_wts k))
   | Rejected => false
   | Panic => (k_code k =? 2)%nat
   end.
